@@ -569,6 +569,13 @@ fn rename_objects(merge_module: &mut Module, rename_table: &HashMap<String, Stri
             axis_pts.input_quantity = newname.to_owned();
         }
     }
+    // MODULE.TYPEDEF_AXIS
+    for typedef_axis in &mut merge_module.typedef_axis {
+        // MODULE.TYPEDEF_AXIS.input_quantity
+        if let Some(newname) = rename_table.get(&typedef_axis.input_quantity) {
+            typedef_axis.input_quantity = newname.to_owned();
+        }
+    }
     // MODULE.CHARACTERISTIC
     for characteristic in &mut merge_module.characteristic {
         // MODULE.CHARACTERISTIC.AXIS_DESCR
@@ -596,6 +603,39 @@ fn rename_objects(merge_module: &mut Module, rename_table: &HashMap<String, Stri
                 &mut dependent_characteristic.characteristic_list,
                 rename_table,
             );
+        }
+        // MODULE.CHARACTERISTIC.VIRTUAL_CHARACTERISTIC
+        if let Some(virtual_characteristic) = &mut characteristic.virtual_characteristic {
+            rename_item_list(&mut virtual_characteristic.characteristic_list, rename_table);
+        }
+        // MODULE.CHARACTERISTIC.COMPARISON_QUANTITY
+        if let Some(comparison_quantity) = &mut characteristic.comparison_quantity {
+            if let Some(newname) = rename_table.get(&comparison_quantity.name) {
+                comparison_quantity.name = newname.to_owned();
+            }
+        }
+        // MODULE.CHARACTERISTIC.MAP_LIST
+        if let Some(map_list) = &mut characteristic.map_list {
+            rename_item_list(&mut map_list.name_list, rename_table);
+        }
+    }
+    // MODULE.MEASUREMENT
+    for measurement in &mut merge_module.measurement {
+        // MODULE.MEASUREMENT.VIRTUAL
+        if let Some(var_virtual) = &mut measurement.var_virtual {
+            rename_item_list(&mut var_virtual.measuring_channel_list, rename_table);
+        }
+    }
+    // MODULE.INSTANCE
+    for instance in &mut merge_module.instance {
+        // MODULE.INSTANCE.OVERWRITE
+        for overwrite in &mut instance.overwrite {
+            // MODULE.INSTANCE.OVERWRITE.INPUT_QUANTITY
+            if let Some(input_quantity) = &mut overwrite.input_quantity {
+                if let Some(newname) = rename_table.get(&input_quantity.name) {
+                    input_quantity.name = newname.to_owned();
+                }
+            }
         }
     }
     // MODULE.TYPEDEF_CHARACTERISTIC
